@@ -60,12 +60,15 @@ ListsFor(p) ==
                             ELSE <<SrcList(zoneA), DstList(DstZone(p))>>
 
 AclDenies(p) == \E i \in 1..Len(ListsFor(p)) : Verdict(ListsFor(p)[i], p) = "DENY"
+\* ARP (anything on UDP/219) is link-local: a router handles what is addressed to itself and routes none of it - which
+\* is what makes its exemption from the router's ACL harmless
+NeverRouted(p) == topo = "routed" /\ p.proto = "arp"
 
 \* --- the structural definition of "every path from A to B is blocked" -------
 PktsAB == {[dst |-> "B", proto |-> pr, dport |-> dp] : pr \in Protos, dp \in {80, 5432, 219, 0}}
 Blocked ==
     \/ ~up.nicA \/ ~up.nicB \/ ~up.portA \/ ~up.portB \/ ~up.linkA \/ ~up.linkB \/ ~up.onM \/ ~up.onB
-    \/ (topo # "lan" /\ \A p \in PktsAB : AclDenies(p))
+    \/ (topo # "lan" /\ \A p \in PktsAB : AclDenies(p) \/ NeverRouted(p))
 
 \* --- the walk -------------------------------------------------------------------
 BlockInit(t, za, zb, u, ls, p) ==
@@ -115,6 +118,7 @@ Forward ==
     /\ loc = "M" /\ ~denied
     /\ seen = ListsFor(pkt)
     /\ pkt.dst = "B" /\ up.portB /\ up.linkB
+    /\ ~NeverRouted(pkt)
     /\ did' = did \cup {"forward"}
     /\ loc' = "wire2"
     /\ UNCHANGED <<seen, denied>> /\ Same
